@@ -7,6 +7,9 @@ Parts
                       through XMLWriter / XMLReader
   run_roundtrip       load(save(doc)) == doc over writer entry points x input forms (file, bytes, decoded str;
                       re-encoded with/without BOM and declaration) x reader entry points; file names
+  run_native_roundtrip  the same for documents whose values were given as unusual native Python objects (time zone
+                      aware datetimes, subclass instances, Decimal, big ints, ...; pool and value entry points of
+                      b_C02) x writer options x handed-out forms x strict / lenient readers
   run_vocabulary      written XML uses the odML 1.1 element vocabulary only (stdlib ElementTree)
   run_foreign_writer  XML produced by an independent serializer (8 spellings, 3 of them with a document type
                       declaration and internal general entities) in every input form loads to the document it
@@ -1414,6 +1417,210 @@ def run_roundtrip(tier, seed):
     agg.flush()
     res = col.result()
     res['writer_raised'] = writer_raised
+    return res
+
+
+# ---------------------------------------------------------------------------------------------
+# part 2b: round trip of documents whose values were given as native Python objects
+# "Every document buildable through the public API": a value can be handed over as a time zone aware datetime, an
+# instance of a subclass, a Decimal, an int beyond 64 bit, -0.0, inf ... (pool and value entry points: rcc.b_C02,
+# shared with the JSON / YAML check). Whatever the document holds after such an object was accepted either comes back
+# from the XML form as the same typed values, or the writer raises; it is never written in a form the reader cannot
+# read back or reads back as something else. Objects the library refuses at an entry point did not happen.
+# ---------------------------------------------------------------------------------------------
+
+class _ListAgg(object):
+    """Stands in for Agg where the classes get further coordinates before they are filed."""
+
+    def __init__(self):
+        self.items = []
+
+    def add(self, check, cls, witness, detail):
+        self.items.append({'check': check, 'cls': cls, 'witness': witness, 'detail': detail})
+
+
+def _rotating_readers(readers, index, full):
+    """All reader entry points, or one strict and one lenient one that move with the case number."""
+    if full or len(readers) <= 2:
+        return list(readers)
+    out = []
+    for mode in ('strict', 'lenient'):
+        rs = [r for r in readers if xml_reader_mode(r) == mode]
+        if rs:
+            out.append(rs[index % len(rs)])
+    return out
+
+
+def _via_entry_points(objs, accepted):
+    """Value entry point part of a failure class: the Properties (named after the entry point their value came
+    through) a difference shows at; 'document' when it shows at no single Property."""
+    eps = set()
+    for o in objs:
+        last = str(o).rsplit('/', 1)[-1]
+        for cand in (last, last.split(':', 1)[-1]):
+            if cand in accepted:
+                eps.add(cand)
+    if not eps:
+        return 'document'
+    if eps >= set(accepted):
+        return 'any'
+    return '+'.join(sorted(eps))
+
+
+NATIVE_PART = 'C01.xml_native_values'
+NATIVE_CONTRACT = 'loaded document holds the same typed values as the saved one (text after strip), or the writer ' \
+                  'raises; a document is never written in a form that is not read back to it'
+
+
+def _native_xml_case(col, work, label, feat, structure, doc, accepted, plain, counters, index, full, forms):
+    """One document x 6 writers x the forms the output is handed out in (+ re-encoded forms) x readers.
+    -> failures as keyword dicts (check, cls, witness, detail); cls carries the native object and the entry points."""
+    out = []
+    single = structure if structure in accepted else None       # document with one value entry point only
+    path = os.path.join(work, 'native.xml')
+    path2 = os.path.join(work, 'native-input.xml')
+    sig = (feat, structure)
+    before = h.snap(doc, parent=False)
+    lst = _ListAgg()
+    cases = Cases(col, lst, NATIVE_PART, doc, label, sig, path2, 'writer', NATIVE_CONTRACT)
+    counters['documents'] += 1
+    counters['documents_holding_only_format_types'] += 1 if plain else 0
+    for n_w, (wname, _produces, styled) in enumerate(WRITERS):
+        w = write_xml(wname, doc, path)
+        if w[0] == 'exc':
+            col.case(cls_key=(sig, wname, 'writer-raised'), sample=None)
+            if plain:
+                # every value is of a type the format has a form for: nothing that "cannot be represented"
+                out.append({'check': NATIVE_PART + '/writer-accepts',
+                            'cls': {'clause': 'writer-accepts', 'native': feat, 'feature': exc_feature(w[1]),
+                                    'via': single or 'document', 'writer': wname},
+                            'witness': {'doc': label, 'entry_points': accepted},
+                            'detail': 'writer raised %s: %s; contract: a valid document whose values all have a form '
+                                      'in odML-XML is saved' % (type(w[1]).__name__, str(w[1])[:200])})
+            else:
+                counters['writer_raised_for_unrepresentable_content'] += 1
+            continue
+        produced, fpath = w[1]
+        natives, body = native_inputs(produced, fpath)
+        for n_i, (input_label, data) in enumerate(natives):
+            for rname in _rotating_readers(readers_for(input_label, styled), index + n_w + n_i, full):
+                cases.path = fpath if data is None else path2
+                cases.evaluate(wname, input_label, data, rname, styled)
+        if body is None or not forms:
+            continue
+        for form in select_forms(False, index * len(WRITERS) + n_w, base=()):
+            if styled and not form.fits(body):
+                continue
+            data = form.build(body)
+            for rname in _rotating_readers(readers_for(form.label, styled), index + n_w, full):
+                cases.path = path2
+                cases.evaluate(wname, form.label, data, rname, styled)
+    cases.flush()
+    # one class per (clause, what differs, writer / input / reader labels); the value entry points the Properties
+    # concerned came through are part of the class
+    grouped = {}
+    # 'entry-points-agree' follows from the other clauses (see Cases.check_agreement): its own class only where it is
+    # the whole story (a lenient reader gives an unreadable Property a new random id on every call)
+    only_agreement = all(f['cls']['clause'] == 'entry-points-agree' for f in lst.items)
+    for f in lst.items:
+        if f['cls']['clause'] == 'entry-points-agree' and not only_agreement:
+            continue
+        key = (f['check'], tuple(sorted(f['cls'].items())))
+        g = grouped.setdefault(key, {'f': f, 'objs': []})
+        g['objs'].append(f['witness'].get('object'))
+    for key, g in grouped.items():
+        f = g['f']
+        cls = dict(f['cls'])
+        cls['native'] = feat
+        via = _via_entry_points([o for o in g['objs'] if o], accepted)
+        cls['via'] = single if (via == 'document' and single) else via
+        witness = dict(f['witness'])
+        witness['objects'] = sorted(set(str(o) for o in g['objs']))[:4]
+        witness['entry_points'] = accepted
+        out.append({'check': f['check'], 'cls': cls, 'witness': witness, 'detail': f['detail']})
+    if h.snap(doc, parent=False) != before:
+        out.append({'check': NATIVE_PART + '/writer-leaves-document-unchanged',
+                    'cls': {'clause': 'writer-leaves-document-unchanged', 'native': feat, 'feature': 'any'},
+                    'witness': {'doc': label}, 'detail': 'saving/loading changed the original document: %s'
+                    % h.diff(before, h.snap(doc, parent=False))})
+    return out
+
+
+def run_native_roundtrip(tier, seed):
+    from rcc import b_C02 as c2          # b_C02 imports this module: import when called
+    n_objects = sum(len(v) for v in c2.NATIVE_POOL.values())
+    col = h.Collector(
+        NATIVE_PART,
+        rule='documents whose values were given as native Python objects that are legitimate but unusual (pool of '
+             'rcc.b_C02: per dtype and for the inferred dtype time zone aware datetimes / times, subclass instances, '
+             'microseconds, fold, years 1 / 999 / 9999, date for datetime and vice versa, bool / float / Decimal / '
+             'Fraction for int and float, ints beyond 64 bit, -0.0, inf, nan, native tuples / lists for n-tuples: %d '
+             'objects) x %d value entry points (constructor list / scalar / among plain values, values=, value=, append, '
+             'extend, insert strict / lenient / into an empty Property, [i]=, extend by a Property, merge, clone, '
+             'create_property): one document per object with a Property per accepting entry point%s, and generated '
+             'documents with such Properties at random places; each x 6 XML writer entry points (plain, local_style, '
+             'custom_template; string and file) x the forms the output is handed out in (file, file content as bytes, '
+             'decoded text, returned str with / without declaration%s) x reader entry points (strict and lenient; %s); '
+             'a writer may raise only for a document holding something the format has no form for; distinct = (native '
+             'object, structure, writer, input form, reader)'
+             % (n_objects, len(c2.VALUE_ENTRY_POINTS),
+                '' if tier == 'quick' else ', one per ordered pair of objects of a dtype in one list',
+                '' if tier == 'quick' else '; for the per-object documents also a moving window of re-encoded forms',
+                'one strict and one lenient per input, moving with the case number' if tier == 'quick' else
+                'all of them for the per-object documents, one strict and one lenient per input for the others'),
+        exhaustive=False)
+    agg = Agg(col)
+    work = fresh_workdir('c01_native')
+    counters = {'inputs_refused_at_every_entry_point': [], 'writer_raised_for_unrepresentable_content': 0,
+                'documents': 0, 'documents_holding_only_format_types': 0, 'documents_split_by_entry_point': 0}
+
+    def unclassed(f):
+        cls = dict(f['cls'])
+        cls.pop('via', None)
+        return (f['check'], tuple(sorted(cls.items()))), cls
+
+    try:
+        for n, (label, feat, structure, doc, accepted, dtype, objs) in enumerate(c2.native_documents(tier, seed)):
+            if doc is None:
+                counters['inputs_refused_at_every_entry_point'].append(feat)
+                continue
+            if not c2.valid_document(doc):
+                continue
+            per_object = structure == 'all-entry-points'
+            full = tier != 'quick' and per_object
+            fails = _native_xml_case(col, work, label, feat, structure, doc, accepted,
+                                     c2.holds_only_format_types(doc), counters, n, full, forms=full)
+            split = per_object and len(accepted) > 1 and any(f['cls'].get('via') == 'document' for f in fails)
+            for f in fails:
+                if not (split and f['cls'].get('via') == 'document'):
+                    agg.add(**f)
+            if not split:
+                continue
+            # the file as a whole failed (not read at all, a Property missing): one document per value entry point
+            # tells which entry points are concerned, and uncovers what the failure of the whole file hides
+            counters['documents_split_by_entry_point'] += 1
+            per_class = {}
+            for ep in accepted:
+                doc1, acc1 = c2.native_doc(dtype, objs, [ep])
+                if not acc1 or not c2.valid_document(doc1):
+                    continue
+                for f in _native_xml_case(col, work, 'native[%s]%s' % (feat, ep), feat, ep, doc1, acc1,
+                                          c2.holds_only_format_types(doc1), counters, n, False, forms=False):
+                    key, cls = unclassed(f)
+                    per_class.setdefault(key, {'f': f, 'cls': cls, 'eps': []})['eps'].append(ep)
+            for key, g in per_class.items():
+                cls = dict(g['cls'])
+                cls['via'] = 'any' if set(g['eps']) >= set(accepted) else '+'.join(sorted(set(g['eps'])))
+                agg.add(check=g['f']['check'], cls=cls, witness=g['f']['witness'], detail=g['f']['detail'])
+            for f in fails:
+                # a failure of the whole file that no single entry point reproduces stays as it is
+                if f['cls'].get('via') == 'document' and unclassed(f)[0] not in per_class:
+                    agg.add(**f)
+    finally:
+        drop_workdir(work)
+    agg.flush()
+    res = col.result()
+    res.update(counters)
     return res
 
 
